@@ -8,9 +8,9 @@
    Configuration flags (variants): [c_ordered] — writes and deletes of one session take effect in issue order
    (/repo HEAD since 657fd59, pkg/opdb/ordered.go); [c_reserve] — PPPoE restore re-reserves addresses (HEAD since
    7da5674); [c_delretry] — a checkpoint Delete that fails is repeated in the background (HEAD since f3eb7c5,
-   OrderedWriter.DeleteEventually); [c_delforever] — the repetition never gives up (NOT in HEAD: finding
-   delete-retry-gives-up, repair proposed).  /repo HEAD = [head_cfg]; [repaired] additionally has [c_delforever].
-   The false values of the first three are the behaviour before the respective fix, kept for _refuted witnesses. *)
+   OrderedWriter.DeleteEventually); [c_delforever] — the repetition never gives up (HEAD since 384ff3e).
+   /repo HEAD = [repaired] = all four true; no C12 finding is open.  The false values are the behaviour before the
+   respective fix and are kept only for the _refuted witnesses ([before_fixes], [gave_up_cfg]). *)
 From OV Require Import Common.Base C12.Model C12.Proofs C12.Window C12.OWModel C12.OWProofs C12.SQModel.
 Open Scope N_scope.
 
@@ -57,11 +57,10 @@ Print Assumptions C12_released_stay_gone_refuted.
    is modelled step by step: [RelF i] — the release completes in memory (addresses freed, event published) although
    the Delete failed: the session is in [delpend], NOT in [released], its image is still in the store;
    [DelRetry i ok] — one background repetition (OrderedWriter.DeleteEventually, 50 ms, 100 ms, ... later);
-   [GiveUp i] — /repo HEAD stops after deleteRetryAttempts = 6 failed repetitions ([c_delforever = false]).
+   [GiveUp i] — before 384ff3e the repetition stopped after 6 failed attempts ([c_delforever = false]).
    THE RESIDUAL WINDOW, exactly: from the failed Delete until a repetition succeeds, a stop restores the session
-   ([C12_delete_pending_window], [_witness]); a successful repetition closes it ([C12_delete_retry_closes]); on HEAD
-   the window never closes once the repetitions have given up ([C12_delete_gaveup_refuted]: finding
-   delete-retry-gives-up, repair [c_delforever] = keep retrying). *)
+   ([C12_delete_pending_window], [_witness]); a successful repetition closes it ([C12_delete_retry_closes]); before
+   384ff3e the window never closed once the repetitions had given up ([C12_delete_gaveup_refuted], historical). *)
 Theorem C12_delete_retry_closes :
   forall s i, aget i (delpend s) = Some false ->
   let s' := fst (do_delretry s i true) in
@@ -94,17 +93,17 @@ Proof.
 Qed.
 Print Assumptions C12_delete_pending_witness.
 
-(* /repo HEAD gives up after six failed repetitions: later the store works again, but nothing repeats the Delete any
-   more — the released session is restored by every later restart.  With [c_delforever] the same history ends with
-   the session gone. *)
-Definition head_cfg (p : proto) : cfg :=
+(* Before 384ff3e the repetition gave up after six failures: later the store works again, but nothing repeats the
+   Delete any more — the released session is restored by every later restart.  With [c_delforever] (/repo HEAD) the
+   same history ends with the session gone. *)
+Definition gave_up_cfg (p : proto) : cfg :=
   {| c_proto := p; c_ordered := true; c_reserve := true; c_delretry := true; c_delforever := false;
      c_n4 := 4; c_n6 := 4; c_npd := 2 |}.
 Definition gaveup_ops : list op :=
   [New (est 0) (Some 0) None None; Cks 0; RelF 0; DelRetry 0 false; DelRetry 0 false; DelRetry 0 false;
    DelRetry 0 false; DelRetry 0 false; DelRetry 0 false; GiveUp 0; DelRetry 0 true; Crash true None 0%Z].
 Theorem C12_delete_gaveup_refuted :
-  (exists s r, run (head_cfg IPoE) init gaveup_ops = Some s /\ aget 0 (live s) = Some r /\ aget 0 (store s) <> None) /\
+  (exists s r, run (gave_up_cfg IPoE) init gaveup_ops = Some s /\ aget 0 (live s) = Some r /\ aget 0 (store s) <> None) /\
   (exists s, run (repaired IPoE 4 4 2) init gaveup_ops = Some s /\ aget 0 (live s) = None /\ released s = [0]).
 Proof.
   split.
@@ -113,14 +112,14 @@ Proof.
 Qed.
 Print Assumptions C12_delete_gaveup_refuted.
 
-(* non-vacuity of the hypotheses for /repo HEAD ([head_cfg]): a history with releases, reordered completions, a
+(* non-vacuity of the hypotheses (here for the configuration without [c_delforever]; [repaired] = /repo HEAD a fortiori): a history with releases, reordered completions, a
    failed Put, a stop inside a release and restarts (and, for [delok], no failing Delete) satisfies them *)
 Example C12_head_hypotheses_nonvacuous :
   let ops := [New (est 0) (Some 0) None None; New (est 1) (Some 1) None None; Ck 0; Ck 1; Poison 1 false; Rel 0;
               Done 1 false; Done 0 false; Cks 1; RelStop 1 true true None 0%Z; Crash false None 0%Z] in
-  c_ordered (head_cfg IPoE) = true /\ Forall (delok (head_cfg IPoE)) ops /\ reserves (head_cfg IPoE) /\
-  pools_small (head_cfg IPoE) /\
-  exists s, run (head_cfg IPoE) init ops = Some s /\ released s = [0] /\ aget 0 (live s) = None /\
+  c_ordered (gave_up_cfg IPoE) = true /\ Forall (delok (gave_up_cfg IPoE)) ops /\ reserves (gave_up_cfg IPoE) /\
+  pools_small (gave_up_cfg IPoE) /\
+  exists s, run (gave_up_cfg IPoE) init ops = Some s /\ released s = [0] /\ aget 0 (live s) = None /\
             (exists r, aget 1 (live s) = Some r /\ s_v4 r = Some 1).
 Proof.
   cbn zeta. split; [reflexivity|]. split; [repeat constructor|]. split; [left; reflexivity|].
